@@ -11,6 +11,7 @@ mod prover;
 mod mon;
 mod refhash;
 mod rng;
+mod sched;
 mod world;
 mod xdb;
 
@@ -103,6 +104,7 @@ fn main() {
         "C09" => checks::c09::run(&ctx),
         "C10" => checks::c10::run(&ctx),
         "C11" => checks::c11::run(&ctx),
+        "C12" => checks::c12::run(&ctx),
         _ => {
             eprintln!("unknown property {prop}");
             2
